@@ -2,8 +2,8 @@ SPECIFICATION RSpec
 CONSTANTS
   Vars = {"a", "b", "c"}
   RTerms = 3
-  RCoef = 2
-  RBound = 4
+  RCoef = 3
+  RBound = 8
   RBuilds = 1
   RDecs = {TRUE, FALSE}
   CoefNeg = 0
@@ -16,7 +16,5 @@ CONSTANTS
   CMax2 = 0
   KMax2 = 0
   EMIT = FALSE
-INVARIANT Canonical
-INVARIANT NodeSem
-INVARIANT TseitinExact
 CHECK_DEADLOCK FALSE
+INVARIANT UnitPropagationSound
